@@ -6,8 +6,10 @@
 package c17
 
 import (
+	"encoding/json"
 	"fmt"
 	"net/http"
+	"net/http/httptest"
 	"strconv"
 	"strings"
 
@@ -184,6 +186,79 @@ type sess struct {
 	t   int
 	nt  bool // saw a non-trivial export-and-reset
 	cnt bool // bump distribution counters
+	via bool // the next export / export-and-reset / reset goes through the HTTP handlers
+}
+
+// through the handlers of har_handlers.go: GET on the export handler, DELETE (?return=true) on the
+// reset handler; the JSON body is decoded back into a har.HAR.
+func (s *sess) serve(h http.Handler, method, target string, wantBody bool) (*har.HAR, string) {
+	rw := httptest.NewRecorder()
+	h.ServeHTTP(rw, httptest.NewRequest(method, target, nil))
+	if !wantBody {
+		if rw.Code != http.StatusNoContent {
+			return nil, fmt.Sprintf("reset handler answered %d", rw.Code)
+		}
+		return nil, ""
+	}
+	if rw.Code != http.StatusOK {
+		return nil, fmt.Sprintf("handler answered %d", rw.Code)
+	}
+	out := &har.HAR{}
+	if err := json.Unmarshal(rw.Body.Bytes(), out); err != nil {
+		return nil, "handler body is not a HAR log: " + err.Error()
+	}
+	return out, ""
+}
+
+func (s *sess) doExport() (*har.HAR, string) {
+	if s.via {
+		s.count("handler:export")
+		return s.serve(har.NewExportHandler(s.l), "GET", "http://martian.proxy/logs", true)
+	}
+	return s.l.Export(), ""
+}
+
+func (s *sess) doExportAndReset() (*har.HAR, string) {
+	if s.via {
+		s.count("handler:export-and-reset")
+		return s.serve(har.NewResetHandler(s.l), "DELETE", "http://martian.proxy/logs/reset?return=true", true)
+	}
+	return s.l.ExportAndReset(), ""
+}
+
+func (s *sess) doReset() string {
+	if s.via {
+		s.count("handler:reset")
+		_, bad := s.serve(har.NewResetHandler(s.l), "POST", "http://martian.proxy/logs/reset", false)
+		return bad
+	}
+	s.l.Reset()
+	return ""
+}
+
+// refused: requests the handlers must turn down without touching the log (wrong method, a
+// `return` parameter that is not a boolean).
+func (s *sess) refused(which string) core.Result {
+	var h http.Handler
+	method, target, want := "PUT", "http://martian.proxy/logs", http.StatusMethodNotAllowed
+	switch which {
+	case "export":
+		h = har.NewExportHandler(s.l)
+	case "reset":
+		h = har.NewResetHandler(s.l)
+	case "param":
+		h, method, target, want = har.NewResetHandler(s.l), "DELETE", "http://martian.proxy/logs/reset?return=maybe", http.StatusBadRequest
+	default:
+		return core.Result{Impl: "bad-op", SkipModel: true}
+	}
+	rw := httptest.NewRecorder()
+	h.ServeHTTP(rw, httptest.NewRequest(method, target, nil))
+	s.count("handler:refused-" + which)
+	if rw.Code != want {
+		return core.Result{Impl: "refused " + strconv.Itoa(rw.Code), SkipModel: true, Sig: "handler:not-refused",
+			Fail: fmt.Sprintf("%s %s answered %d, want %d", method, target, rw.Code, want)}
+	}
+	return core.Result{Impl: "refused", SkipModel: true}
 }
 
 func newSess(cnt bool) *sess { return &sess{l: har.NewLogger(), g: newLedger(), cnt: cnt} }
@@ -293,7 +368,11 @@ func (s *sess) apply(kind, id string, m msg) (impl, fail, sig string) {
 			s.count("res:orphan")
 		}
 	case "export":
-		got, bad := readHAR(s.l.Export(), true)
+		hl, bad := s.doExport()
+		var got []ent
+		if bad == "" {
+			got, bad = readHAR(hl, true)
+		}
 		if bad != "" {
 			return "bad-export", bad, "export:malformed"
 		}
@@ -307,7 +386,11 @@ func (s *sess) apply(kind, id string, m msg) (impl, fail, sig string) {
 			return impl, f, sg
 		}
 	case "xreset":
-		got, bad := readHAR(s.l.ExportAndReset(), true)
+		hl, bad := s.doExportAndReset()
+		var got []ent
+		if bad == "" {
+			got, bad = readHAR(hl, true)
+		}
 		if bad != "" {
 			return "bad-export", bad, "xreset:malformed"
 		}
@@ -345,7 +428,9 @@ func (s *sess) apply(kind, id string, m msg) (impl, fail, sig string) {
 		}
 		g.live = keep
 	case "reset":
-		s.l.Reset()
+		if bad := s.doReset(); bad != "" {
+			return "bad-reset", bad, "reset:malformed"
+		}
 		impl = "ok"
 		if len(g.live) > 0 {
 			s.count("reset:nonempty")
@@ -478,6 +563,14 @@ func (e *ex) Do(op string) core.Result {
 	case (f[0] == "export" || f[0] == "xreset" || f[0] == "reset") && len(f) == 1:
 		impl, fail, sig := e.s.apply(f[0], "", plainMsg)
 		return core.Result{Impl: impl, Fail: fail, Sig: sig}
+	case (f[0] == "hexport" || f[0] == "hxreset" || f[0] == "hreset") && len(f) == 1:
+		// the same operation through the HTTP handlers; the model sees the operation itself
+		e.s.via = true
+		impl, fail, sig := e.s.apply(f[0][1:], "", plainMsg)
+		e.s.via = false
+		return core.Result{Impl: impl, Fail: fail, Sig: sig, ModelOp: f[0][1:]}
+	case f[0] == "hrefused" && len(f) == 2:
+		return e.s.refused(f[1])
 	}
 	return core.Result{Impl: "bad-op"}
 }
@@ -538,8 +631,13 @@ func (P) Nontrivial(ops []string, impl []string) bool {
 			continue
 		}
 		k := f[0]
-		if k == "reqm" {
+		switch k {
+		case "reqm":
 			k = "req"
+		case "hexport", "hxreset", "hreset":
+			k = k[1:]
+		case "hrefused", "alias":
+			continue
 		}
 		kinds = append(kinds, k)
 		outs = append(outs, impl[i])
